@@ -174,6 +174,22 @@ def path_classes(ctx: Ctx):  # type: ignore[no-untyped-def]
     return ctx.repo.subclasses(base, strict=True)
 
 
+def _is_nodelist_expr(ctx: Ctx, cls, v: Optional[ast.expr], depth: int) -> bool:  # type: ignore[no-untyped-def]
+    """NodeList(...) or a call of a helper method all of whose returns are."""
+    if isinstance(v, ast.Await):
+        v = v.value
+    if not isinstance(v, ast.Call):
+        return False
+    if callee_name(v) == "NodeList":
+        return True
+    if depth < 2 and isinstance(v.func, ast.Attribute) and path_of(v.func.value) == "self":
+        helper = ctx.repo.find_method(cls, v.func.attr)
+        if helper is not None:
+            rets = [r for r in ast.walk(helper.node) if isinstance(r, ast.Return)]
+            return bool(rets) and all(_is_nodelist_expr(ctx, cls, r.value, depth + 1) for r in rets)
+    return False
+
+
 def r2_2(ctx: Ctx) -> RuleResult:
     rr = RuleResult("R2.2", "filter queries evaluate to node lists; unwrapping only for comparisons", floor=8)
     n_methods = 0
@@ -189,7 +205,7 @@ def r2_2(ctx: Ctx) -> RuleResult:
                 v = r.value
                 if isinstance(v, ast.Await):
                     v = v.value
-                if isinstance(v, ast.Call) and callee_name(v) == "NodeList":
+                if _is_nodelist_expr(ctx, cls, v, 0):
                     rr.ok(fn.loc(r), f"{fn.qualname}: returns {short(v, 50)}")
                 else:
                     rr.bad(fn, r, "a filter query returns something that is not a NodeList: consumers decide "
